@@ -65,6 +65,9 @@ import Tie.Binders
 #print axioms Sourcer.C11_context_table_identity
 #print axioms Sourcer.C13_late_binding
 #print axioms Sourcer.C13_super
+#print axioms Sourcer.C13_flattening
+#print axioms Sourcer.C13_flattened_name
+#print axioms Sourcer.C13_rule_numbering_is_immaterial
 #print axioms Sourcer.C17_nested_sequences
 #print axioms Sourcer.C17_nested_options
 #print axioms Sourcer.C17_nested_failing_choices
